@@ -63,6 +63,16 @@ def units(rng, tier):
             p = {"lbn": lb2, "lbd": 2, "ubn": ub2, "ubd": 2}
             p.update(gen.with_format(rng, vals, rng.choice(["list", "dict_str", "dict_int"])))
             us.append(U("generate_tree", p, "inex/exhaustive"))
+    # the same tree object enumerated again after one or two earlier enumerations were abandoned part-way (the complete enumeration
+    # must be the same: the model is a function of the items and the window)
+    for _ in range(60 if tier == "quick" else 600):
+        vals, fam = gen.values(rng, n=rng.randint(2, 7), family=rng.choice(["small", "medium", "zeros", "repeats"]))
+        tot = sum(vals)
+        lb2 = rng.randint(-1, tot)
+        ub2 = rng.randint(lb2, 2 * tot + 2)
+        p = {"lbn": lb2, "lbd": 2, "ubn": ub2, "ubd": 2, "abandon": [rng.randint(0, 4) for _ in range(rng.randint(1, 2))]}
+        p.update(gen.with_format(rng, vals, rng.choice(["list", "dict_str"])))
+        us.append(U("generate_tree", p, "inex/re-enumerated-after-abandoned-run"))
     # degenerate shapes: no item at all, or only zero-valued items, with windows that contain 0, lie above it or below it
     for vals in ([], [], [0], [0, 0]):
         for lb2, ub2 in ((0, 0), (-2, 3), (1, 4), (2, 2), (-6, -1), (-3, -3), (1, 0)):
